@@ -14,7 +14,14 @@ def enum_shapes(tier, seed):
 
 
 def random_models(with_ctcs, max_feats=12):
-    return S.model_specs(S.BOOLEAN_ANY, 1, max_feats, with_ctcs=with_ctcs).map(
+    """boolean_any models; one case in four also has [a..*] relations (max = -1, as the UVL reader
+    produces for '*')."""
+    from hypothesis import strategies as st_
+    base = st_.one_of(S.model_specs(S.BOOLEAN_ANY, 1, max_feats, with_ctcs=with_ctcs),
+                      S.model_specs(S.BOOLEAN_ANY, 1, max_feats, with_ctcs=with_ctcs),
+                      S.model_specs(S.BOOLEAN_ANY, 1, max_feats, with_ctcs=with_ctcs),
+                      S.model_specs(S.BOOLEAN_STAR, 1, max_feats, with_ctcs=with_ctcs))
+    return base.map(
         lambda m: m if (with_ctcs and m["ctcs"]) or not with_ctcs else _force_ctc(m))
 
 
@@ -41,7 +48,7 @@ def structure_nontrivial(m):
         if len(f["rels"]) >= 2:
             return True
         for r in f["rels"]:
-            if rel_class(r["min"], r["max"], len(r["children"])) in ("mutex", "cardinal", "other1"):
+            if r["max"] == -1 or rel_class(r["min"], r["max"], len(r["children"])) in ("mutex", "cardinal", "other1"):
                 return True
     return False
 
@@ -49,7 +56,7 @@ def structure_nontrivial(m):
 def structure_classes(m):
     out = set()
     for r, _ in build.iter_rels(m["root"]):
-        out.add("rel:" + rel_class(r["min"], r["max"], len(r["children"])))
+        out.add("rel:star" if r["max"] == -1 else "rel:" + rel_class(r["min"], r["max"], len(r["children"])))
     for f, _ in build.iter_feats(m["root"]):
         if len(f["rels"]) >= 2:
             out.add("multi-relations-parent")
